@@ -280,6 +280,17 @@ fault('ctor-body-size-abs', ['C02'], ('header.py',
 fault('ctor-body-value-stripped', ['C18'], ('body.py',
       "        self.value = value\n", "        self.value = value.rstrip(b'\\x00')\n"))
 
+# ---- refusals of encodable values (C03.A)
+fault('array-length-cap', ['C03'], ('encode.py',
+      "    data = []\n    for item in value:",
+      "    if len(value) > 1024:\n        raise TypeError('field array too long')\n    data = []\n    for item in value:"))
+fault('nan-refused', ['C03'], ('encode.py',
+      "    if not isinstance(value, float):\n        raise TypeError('float required, received {}'.format(type(value)))\n    return common.Struct.double.pack(value)",
+      "    if not isinstance(value, float) or value != value:\n        raise TypeError('float required, received {}'.format(type(value)))\n    return common.Struct.double.pack(value)"))
+fault('far-future-datetime-refused', ['C03'], ('encode.py',
+      "    if isinstance(value, datetime.datetime):\n        if value.tzinfo is None",
+      "    if isinstance(value, datetime.datetime):\n        if value.year > 2100:\n            raise TypeError('timestamp out of range')\n        if value.tzinfo is None"))
+
 # ---- behaviour-preserving edits --------------------------------------
 equiv('rename-locals-marshal', [], ('base.py',
       'byte, offset, output, processing_bitset = -1, 0, [], False',
